@@ -17,7 +17,8 @@ CONSTANTS
   CommitFirst = TRUE
   LimitFix = TRUE
   HbStops = TRUE
+  Ahead = 0
   Gen = FALSE
 VIEW mcview
-INVARIANT C02_PollerNoMiss C02_BroadcastOrder C03_Increasing C06_Scope StartOK C03_ThresholdOnce C03_ThresholdPlaced C11_LimitNotExceeded C11_LimitCloses C11_TailNoHistory C11_PulseOnlyIfAsked C11_NoSilentGap C11_ClosedIsFinal C09_EphemeralNotStored 
+INVARIANT C02_PollerNoMiss C02_BroadcastOrder C03_Increasing C06_Scope StartOK C03_ThresholdOnce C03_ThresholdPlaced C11_LimitNotExceeded C11_LimitCloses C11_TailNoHistory C11_PulseOnlyIfAsked C11_NoSilentGap C11_ClosedIsFinal C09_EphemeralNotStored  
 CHECK_DEADLOCK FALSE
